@@ -749,6 +749,58 @@ func TestC10DeadlineRace(t *testing.T) {
 	}
 }
 
+// TestC10DeadlineExtended: the application sets a close deadline and then
+// extends it; the peer keeps sending (without closing its stream) past the
+// first deadline.  The deadline in force is the later one: Serve must not give
+// up before it has passed.  (One-sided: a late return decides nothing.)
+func TestC10DeadlineExtended(t *testing.T) {
+	ev.Begin(t)
+	n := ev.N(40, 400)
+	for i := 0; i < n; i++ {
+		sv, err := wire.NewServed(wire.SessionOpts{})
+		if err != nil {
+			t.Fatalf("harness: %v", err)
+		}
+		d1 := time.Duration(3+i%4) * time.Millisecond
+		d2 := time.Duration(45+5*(i%3)) * time.Millisecond
+		ev.Case(true, fmt.Sprintf("deadline-extended d1=%v d2=%v", d1, d2), "close-deadline-extended")
+		sv.Start(nil)
+		t0 := time.Now()
+		if err := sv.Session.SetCloseDeadline(t0.Add(d1)); err != nil {
+			t.Fatalf("harness: SetCloseDeadline: %v", err)
+		}
+		if i%2 == 1 {
+			runtime.Gosched()
+		}
+		if err := sv.Session.SetCloseDeadline(t0.Add(d2)); err != nil {
+			t.Fatalf("harness: SetCloseDeadline: %v", err)
+		}
+		// the peer talks on, after the first deadline and before the second
+		for _, at := range []time.Duration{d1 + 6*time.Millisecond, d1 + 16*time.Millisecond} {
+			if w := time.Until(t0.Add(at)); w > 0 {
+				time.Sleep(w)
+			}
+			sv.Feed(`<presence xmlns="jabber:client" from="peer@example.org/r"/>`)
+		}
+		if !sv.Wait(waitLong) {
+			buf := make([]byte, 1<<18)
+			buf = buf[:runtime.Stack(buf, true)]
+			ev.Failf(t, "iteration %d: Serve had not returned %v after a close deadline of %v\n%s", i, waitLong, d2, buf)
+		}
+		el := time.Since(t0)
+		if p := sv.Panic(); p != "" {
+			ev.Failf(t, "iteration %d: %s", i, p)
+		}
+		if sv.Err() == nil {
+			ev.Failf(t, "iteration %d: Serve returned nil after %v although the peer never closed its stream", i, el)
+		}
+		if el < d2-time.Millisecond {
+			ev.Failf(t, "iteration %d: SetCloseDeadline(+%v) then SetCloseDeadline(+%v), the peer sent stanzas after the first deadline: Serve returned %v after only %v, before the close deadline in force (+%v) had passed", i, d1, d2, sv.Err(), el, d2)
+		}
+		sv.Conn.Close()
+	}
+}
+
 func isTimeout(err error) bool {
 	var te interface{ Timeout() bool }
 	return errors.As(err, &te) && te.Timeout()
